@@ -1,7 +1,7 @@
 (* C15: programs built by the loader (Model/Transforms.v: verify + new_tf) start with every
    drop node in its invariant — so the sampling bound holds for every accepted configuration. *)
 From SV Require Import Model.Common Model.TfUtf8 Model.TfUnescape Model.Template Model.Extractor
-     Model.TinyRegex Model.Transforms Proofs.TransformsProofs.
+     Model.TinyRegex Model.Transforms Proofs.PatternProofs Proofs.TransformsProofs.
 From Coq Require Import Lia ZifyBool ZifyN ZifyNat.
 Ltac Zify.zify_post_hook ::= Z.div_mod_to_equations.
 Open Scope N_scope.
@@ -141,5 +141,105 @@ Qed.
 Lemma load_drop_invariant : forall l ts cs rs, load O schema l = LOk ts ->
   Forall dinv_tfs (run_states O ts cs rs).
 Proof. intros. apply dinv_stream. eapply load_dinv. eassumption. Qed.
+
+(* ---------- accepted configurations build well-formed programs: they never panic ---------- *)
+
+(* what is assumed of Go's regexp: FindStringSubmatchIndex returns one pair per subexpression
+   (SubexpNames), each either negative or a range inside the value *)
+Definition oracle_sane : Prop :=
+  forall pat v idx, o_re_find O pat v = Some idx ->
+    length idx = length (o_re_names O pat) /\
+    Forall (fun ab => (fst ab < 0 \/ snd ab < 0)%Z \/ (0 <= fst ab <= snd ab /\ snd ab <= Z.of_nat (length v))%Z) idx.
+
+Lemma new_subexp_locs_length : forall names locs, new_subexp_locs schema names = Ok locs -> length locs = length names.
+Proof.
+  induction names as [|n names IH]; intros locs H; cbn [new_subexp_locs] in H.
+  - inversion H; reflexivity.
+  - destruct n as [|c n'].
+    + destruct (new_subexp_locs schema names) as [ls| |]; try discriminate. inversion H; subst. cbn. f_equal. apply IH. reflexivity.
+    + destruct (must_loc schema (c :: n')); try discriminate. cbn [obind] in H.
+      destruct (new_subexp_locs schema names) as [ls| |]; try discriminate. inversion H; subst. cbn. f_equal. apply IH. reflexivity.
+Qed.
+
+Definition good_wf (c : cfg) : Prop :=
+  forall t, verify O schema c = Ok tt -> new_tf O schema c = Ok t -> wf_tf O t.
+
+Lemma good_wf_all : forall l, Forall good_wf l -> forall ts,
+  verify_all O schema l = Ok tt -> new_all O schema l = Ok ts -> wf_tfs O ts.
+Proof.
+  induction 1 as [|x l Hx Hl IH]; intros ts Hv Hn.
+  - inversion Hn; subst. exact I.
+  - cbn [verify_all new_all] in Hv, Hn.
+    destruct (verify O schema x) as [[]| |] eqn:Ev; try discriminate. cbn [obind] in Hv.
+    destruct (new_tf O schema x) as [t| |] eqn:En; try discriminate. cbn [obind] in Hn.
+    destruct (new_all O schema l) as [ts'| |] eqn:El; try discriminate. cbn [obind] in Hn.
+    inversion Hn; subst. split; [apply Hx; assumption|apply IH; [assumption|reflexivity]].
+Qed.
+
+Lemma all_good_wf : oracle_sane -> forall c, good_wf c.
+Proof.
+  intros Hsane. apply cfg_ind2; unfold good_wf.
+  - intros fs t _ H. cbn [new_tf] in H. destruct (new_addfields schema (sort_pairs fs)); inversion H; exact I.
+  - intros ks t _ H. cbn [new_tf] in H. destruct (new_locs schema ks); inversion H; exact I.
+  - intros k m d t _ H. cbn [new_tf] in H. destruct (must_loc schema k); inversion H; exact I.
+  - intros m th IH t Hv Hn. cbn [verify new_tf] in Hv, Hn. rewrite verify_list_eq in Hv. rewrite new_list_eq in Hn.
+    apply vguard_ok in Hv. destruct Hv as [_ Hv]. apply vguard_ok in Hv. destruct Hv as [_ Hv].
+    apply vguard_ok in Hv. destruct Hv as [_ Hv].
+    destruct (new_matcher O schema m); try discriminate. cbn [obind] in Hn.
+    destruct (new_all O schema th) as [ts| |] eqn:E; try discriminate. inversion Hn; subst.
+    cbn. eapply good_wf_all; eassumption.
+  - intros cs IH t Hv Hn. cbn [verify new_tf] in Hv, Hn.
+    apply vguard_ok in Hv. destruct Hv as [_ Hv].
+    match type of Hn with (obind ?X _) = _ => destruct X as [ks| |] eqn:Ek; try discriminate end.
+    inversion Hn; subst. cbn. clear Hn.
+    revert ks Hv Ek. induction IH as [|[m th] cs Hth Hcs IHcs]; intros ks Hv Ek.
+    + inversion Ek; subst. exact I.
+    + rewrite verify_list_eq in Hv. rewrite new_list_eq in Ek.
+      match type of Hv with (obind ?X _) = _ => destruct X as [[]| |] eqn:Ev; try discriminate end.
+      cbn [obind] in Hv.
+      apply vguard_ok in Ev. destruct Ev as [_ Ev]. apply vguard_ok in Ev. destruct Ev as [_ Ev].
+      apply vguard_ok in Ev. destruct Ev as [_ Ev].
+      destruct (new_matcher O schema m); try discriminate. cbn [obind] in Ek.
+      destruct (new_all O schema th) as [ts| |] eqn:E; try discriminate. cbn [obind] in Ek.
+      match type of Ek with (obind ?X _) = _ => destruct X as [ks'| |] eqn:Ek'; try discriminate end.
+      inversion Ek; subst. split; [eapply good_wf_all; eassumption|]. apply IHcs; [assumption|reflexivity].
+  - intros b IH t Hv Hn. cbn [verify new_tf] in Hv, Hn. rewrite verify_list_eq in Hv. rewrite new_list_eq in Hn.
+    apply vguard_ok in Hv. destruct Hv as [_ Hv].
+    destruct (new_all O schema b) as [ts| |] eqn:E; try discriminate. inversion Hn; subst.
+    cbn. eapply good_wf_all; eassumption.
+  - intros m pct label t _ Hn. cbn [new_tf] in Hn. destruct (new_matcher O schema m); inversion Hn; exact I.
+  - intros h k p n d t Hv H. cbn [verify new_tf] in Hv, H.
+    apply vguard_ok in Hv. destruct Hv as [_ Hv]. apply vguard_ok in Hv. destruct Hv as [_ Hv].
+    destruct (new_string_extractor_simple h p (zval n)) as [ex| |] eqn:Eex; try discriminate.
+    apply vguard_ok in Hv. destruct Hv as [Hpos _].
+    destruct (must_loc schema k); try discriminate. cbn [obind] in H.
+    destruct (must_loc schema d); inversion H; subst. cbn.
+    destruct (new_string_extractor_simple_wf _ _ _ _ Eex) as [Hmax Hb]. split; [rewrite Hmax; lia|exact Hb].
+  - intros k n s t Hv H. cbn [verify new_tf] in Hv, H.
+    apply vguard_ok in Hv. destruct Hv as [_ Hv]. apply vguard_ok in Hv. destruct Hv as [Hpos _].
+    destruct (must_loc schema k); inversion H; subst. cbn. lia.
+  - intros k t _ H. cbn [new_tf] in H. destruct (must_loc schema k); inversion H; exact I.
+  - intros k p r t _ H. cbn [new_tf] in H. destruct (must_loc schema k); try discriminate. cbn [obind] in H.
+    destruct (o_re_compiles O p); inversion H; exact I.
+  - intros k p t _ H. cbn [new_tf] in H. destruct (o_re_compiles O p); try discriminate.
+    destruct (new_subexp_locs schema (o_re_names O p)) as [locs| |] eqn:El; try discriminate. cbn [obind] in H.
+    destruct (must_loc schema k); inversion H; subst. cbn.
+    intros v idx Hf. destruct (Hsane _ _ _ Hf) as [Hlen Hall]. split; [|exact Hall].
+    rewrite Hlen. symmetry. apply new_subexp_locs_length. assumption.
+Qed.
+
+Lemma load_wf : oracle_sane -> forall l ts, load O schema l = LOk ts -> wf_tfs O ts.
+Proof.
+  intros Hsane l ts H. unfold load in H. destruct (negb (forallb (unmarshals O) l)); [discriminate|].
+  destruct (verify_all O schema l) as [[]| |] eqn:Ev; try discriminate.
+  destruct (new_all O schema l) as [ts'| |] eqn:En; try discriminate. inversion H; subst.
+  eapply good_wf_all; try eassumption. apply Forall_forall. intros c _. apply all_good_wf. assumption.
+Qed.
+
+(* every configuration the loader accepts runs every stream of records without a panic *)
+Lemma load_no_panic : oracle_sane -> forall l ts cs rs, load O schema l = LOk ts ->
+  Forall (fun x => x <> RPanic) (fst (run_records O ts cs rs)) /\
+  length (fst (run_records O ts cs rs)) = length rs.
+Proof. intros Hsane l ts cs rs H. apply run_records_no_panic. eapply load_wf; eassumption. Qed.
 
 End Load.
